@@ -302,6 +302,44 @@ type c10Half struct {
 	writes []int // sizes of the Write calls seen
 	all    []byte
 	frag   *rand.Rand
+	// pipe0: net.Pipe-like message semantics. Every Write is kept as its own chunk, never merged with the
+	// next, and a ZERO-LENGTH Write reaches the reader as a Read returning (0, nil).
+	pipe0  bool
+	chunks [][]byte
+}
+
+// c10Pipe0 is the fragSeed value that selects the pipe0 transport ("frag=pipe0" / "rd=pipe0").
+const c10Pipe0 = -7
+
+func c10FragString(fragSeed int64) string {
+	if fragSeed == c10Pipe0 {
+		return "pipe0"
+	}
+	return strconv.FormatInt(fragSeed, 10)
+}
+
+func c10ParseFrag(s string) int64 {
+	if s == "pipe0" {
+		return c10Pipe0
+	}
+	v, _ := strconv.ParseInt(s, 10, 64)
+	return v
+}
+
+func c10NewHalf(fragSeed int64) *c10Half {
+	if fragSeed == c10Pipe0 {
+		return &c10Half{pipe0: true}
+	}
+	return &c10Half{frag: rand.New(rand.NewSource(fragSeed))}
+}
+
+// pending: bytes written and not yet read
+func (h *c10Half) pending() int {
+	n := len(h.buf)
+	for _, ch := range h.chunks {
+		n += len(ch)
+	}
+	return n
 }
 
 type c10End struct {
@@ -309,6 +347,19 @@ type c10End struct {
 }
 
 func (e *c10End) Read(p []byte) (int, error) {
+	if e.in.pipe0 {
+		if len(e.in.chunks) == 0 {
+			return 0, io.EOF
+		}
+		ch := e.in.chunks[0]
+		n := copy(p, ch)
+		if n == len(ch) {
+			e.in.chunks = e.in.chunks[1:] // (an empty chunk: n == 0, nil error)
+		} else {
+			e.in.chunks[0] = ch[n:]
+		}
+		return n, nil
+	}
 	if len(e.in.buf) == 0 {
 		return 0, io.EOF // nothing in flight: a real socket would block; the caller reports err
 	}
@@ -334,7 +385,11 @@ func (e *c10End) Read(p []byte) (int, error) {
 }
 
 func (e *c10End) Write(p []byte) (int, error) {
-	e.out.buf = append(e.out.buf, p...)
+	if e.out.pipe0 {
+		e.out.chunks = append(e.out.chunks, append([]byte(nil), p...))
+	} else {
+		e.out.buf = append(e.out.buf, p...)
+	}
 	e.out.all = append(e.out.all, p...)
 	e.out.writes = append(e.out.writes, len(p))
 	return len(p), nil
@@ -357,8 +412,10 @@ type c10Session struct {
 }
 
 func c10NewSession(cname string, key, iv []byte, thr int, fragSeed int64) *c10Session {
-	ab := &c10Half{frag: rand.New(rand.NewSource(fragSeed))}
-	ba := &c10Half{frag: rand.New(rand.NewSource(fragSeed + 1))}
+	ab, ba := c10NewHalf(fragSeed), c10NewHalf(fragSeed)
+	if fragSeed != c10Pipe0 {
+		ba = c10NewHalf(fragSeed + 1)
+	}
 	var ea, eb net.Conn = &c10End{in: ba, out: ab}, &c10End{in: ab, out: ba}
 	s := &c10Session{a: mcnet.WrapConn(ea), b: mcnet.WrapConn(eb), ab: ab, ba: ba}
 	for _, cn := range []*mcnet.Conn{s.a, s.b} {
@@ -523,7 +580,7 @@ func c10Conn(c *Ctx, cname string, key, iv []byte, thr int, dir string, fragSeed
 				got = append(got, c10Keep(q, own))
 			}
 		}
-		if len(half.buf) != 0 {
+		if half.pending() != 0 {
 			obs = "err leftover"
 			return
 		}
@@ -534,7 +591,7 @@ func c10Conn(c *Ctx, cname string, key, iv []byte, thr int, dir string, fragSeed
 		obs = res
 	}
 	c.Emit("conn", []string{"cipher=" + cname, "key=" + hx(key), "iv=" + hx(iv), "thr=" + strconv.Itoa(thr),
-		"dir=" + dir, "frag=" + strconv.FormatInt(fragSeed, 10), "keep=" + keep, "pkts=" + c10PktsString(pkts)}, obs)
+		"dir=" + dir, "frag=" + c10FragString(fragSeed), "keep=" + keep, "pkts=" + c10PktsString(pkts)}, obs)
 	total := 0
 	for _, q := range pkts {
 		total += len(q.Data)
@@ -621,7 +678,7 @@ func replayC10(c *Ctx, op string, args []string) bool {
 		c10RoundTrip(c, m["cipher"], unhx(m["key"]), unhx(m["iv"]), c10ParseCalls(m["enc"]), c10ParseCalls(m["dec"]), unhx(m["msg"]))
 	case "conn":
 		thr, _ := strconv.Atoi(m["thr"])
-		fs, _ := strconv.ParseInt(m["frag"], 10, 64)
+		fs := c10ParseFrag(m["frag"])
 		keep := m["keep"]
 		if keep == "" {
 			keep = "reuse"
@@ -953,8 +1010,13 @@ func genC10(c *Ctx) {
 	}
 
 	// 6. encrypted Conn over a duplex pipe, with and without compression
-	for _, thr := range []int{-1, 0, 1, 64, 256} {
-		for i := 0; i < c.N(12, 120); i++ {
+	// (every negative threshold disables compression: -2, -100 and -2^31 must behave like -1)
+	for _, thr := range []int{-1, 0, 1, 64, 256, -2, -100, math.MinInt32} {
+		nSess := c.N(12, 120)
+		if thr < -1 {
+			nSess = c.N(4, 40)
+		}
+		for i := 0; i < nSess; i++ {
 			cn := "aes"
 			if i%7 == 6 {
 				cn = c10Ciphers[1+c.R.Intn(3)]
@@ -998,9 +1060,21 @@ func genC10(c *Ctx) {
 				pkts = append(pkts, pk.Packet{ID: c10ID(c), Data: c10Payload(c, n)})
 			}
 			fs := c.R.Int63n(1 << 40)
+			if c.R.Intn(4) == 0 {
+				fs = c10Pipe0 // message transport: zero-length writes reach the reader
+			}
 			dir := []string{"ab", "ba"}[c.R.Intn(2)]
 			keep := []string{"own", "own", "mix", "reuse"}[c.R.Intn(4)]
 			c10Conn(c, cn, key, iv, thr, dir, fs, keep, pkts, true)
+		}
+		// empty payloads followed by further packets, over the transport that preserves zero-length writes
+		{
+			key := c10Bytes(c.R, 16)
+			var pkts []pk.Packet
+			for _, n := range []int{0, 1, 0, 0, 3, 0, 70 + c.R.Intn(300), 0} {
+				pkts = append(pkts, pk.Packet{ID: c10ID(c), Data: c10Bytes(c.R, n)})
+			}
+			c10Conn(c, "aes", key, key, thr, []string{"ab", "ba"}[c.R.Intn(2)], c10Pipe0, []string{"own", "reuse"}[c.R.Intn(2)], pkts, false)
 		}
 		// ids on both sides of every VarInt length class, small payloads around the threshold
 		{
@@ -1017,6 +1091,9 @@ func genC10(c *Ctx) {
 				pkts = append(pkts, pk.Packet{ID: id, Data: c10Bytes(c.R, n)})
 			}
 			c10Conn(c, "aes", key, key, thr, []string{"ab", "ba"}[c.R.Intn(2)], c.R.Int63n(1<<40), "mix", pkts, false)
+		}
+		if thr < -1 {
+			continue
 		}
 		// incompressible payloads (deflate stored blocks) with idLen+len(Data) = k·32768 - 1, + 0, + 1, every
 		// one followed by a small packet
